@@ -65,7 +65,7 @@ def run(tier, seed):
                 "a newline / with the last instruction touching the last byte / with CRLF / inside a comment; both file entry "
                 "points (plain and counting) against the string entry points on the same contents (return value, offset, bytes, "
                 "count), on fresh instances and on instances with chunk fitting / STRICT options / a start offset set and a "
-                "mixed-length program, and as two successive file calls on one instance (11 x 11 sizes, both endings, all four entry-point pairs); file mappings are placed flush against a PROT_NONE page (wrap seam) so that reading past the mapping "
+                "mixed-length program, and as two and three successive file calls on one instance (11 x 11 sizes, both endings, all four entry-point pairs; 7 x 7 x 7 sizes in four entry-point patterns); file mappings are placed flush against a PROT_NONE page (wrap seam) so that reading past the mapping "
                 "faults deterministically; missing path, directory; asm_create_bin_file at offsets {0,1,17,6000,6001,12500} and "
                 "into a missing directory. distinct_nontrivial = distinct (size, ending, entry point) cases")
     try:
@@ -181,6 +181,21 @@ def run(tier, seed):
                                 hs.append("ZG\tc65536:p:cc\t" + "\t".join(fo))
                                 hs.append("ZG\tc65536:p:cc\t" + "\t".join(so))
                                 meta.append((s1, e1, s2, e2, k1 + k2))
+        # ... and three in a row (a length kept from the call before last, e.g. long - short - medium)
+        S3 = [x for x in (0, 5, 13, 40, 64, PAGE, PAGE + 1) if (x, "nl") in files]
+        for s1 in S3:
+            for s2 in S3:
+                for s3 in S3:
+                    for e in ("nl", "none"):
+                        if any((x, e) not in files for x in (s1, s2, s3)):
+                            continue
+                        tp = [files[(x, e)] for x in (s1, s2, s3)]
+                        for ks in ("fff", "nnn", "fnf", "nfn"):
+                            fo = [("f%s" % hexec.esc(pp)) if k == "f" else ("n16:%s" % hexec.esc(pp)) for k, (tt, pp) in zip(ks, tp)]
+                            so = [("A%s" % hexec.esc(tt)) if k == "f" else ("N16:%s" % hexec.esc(tt)) for k, (tt, pp) in zip(ks, tp)]
+                            hs.append("ZG\tc65536:p:cc\t" + "\t".join(fo))
+                            hs.append("ZG\tc65536:p:cc\t" + "\t".join(so))
+                            meta.append((s1, e, s2, e, ks, s3))
         res = hexec.run(hs, variant="wrap", dangerous=True, timeout=20)
         for i, m in enumerate(meta):
             of, os_ = res[2 * i], res[2 * i + 1]
@@ -200,12 +215,12 @@ def run(tier, seed):
             sf, ss = summ3(of), summ3(os_)
             rep.distinct_n += 1
             if sf != ss:
-                rep.fail({"class": "successive", "first": str(m[0]), "second": str(m[2]), "entries": m[4],
+                rep.fail({"class": "successive", "first": str(m[0]), "second": str(m[2]), "entries": m[4], "ncalls": str(len(m[4])),
                           "order": "shrinking" if m[2] < m[0] else ("growing" if m[2] > m[0] else "same")},
                          ["crash" if sf and sf[0] == "crash" else "differs-from-string-call"],
                          {"kind": "successive", "case": list(m)},
-                         "files of %d (%s) then %d (%s) bytes through %s on one instance: file %s, string %s" %
-                         (m[0], m[1], m[2], m[3], m[4], str(sf)[:90], str(ss)[:90]))
+                         "files of %d (%s) then %d (%s)%s bytes through %s on one instance: file %s, string %s" %
+                         (m[0], m[1], m[2], m[3], (" then %d" % m[5]) if len(m) > 5 else "", m[4], str(sf)[:90], str(ss)[:90]))
         rep.states += len(meta)
         rep.bounds["successive_file_calls"] = len(meta)
         # bad paths
@@ -339,14 +354,15 @@ def replay(r, verbose=False):
             a, b = [hexec.Asm(next(x for x in o if x[:2] in ("f:", "n:", "A:", "N:"))) for o in res]
             return (a.ret, a.off, a.hex, a.dest) != (b.ret, b.off, b.hex, b.dest)
         if r["kind"] == "successive":
-            s1, e1, s2, e2, ks = r["case"]
-            t1, t2 = content(s1, e1), content(s2, e2)
-            p1, p2 = os.path.join(tmp, "a.asm"), os.path.join(tmp, "b.asm")
-            for pp, tt in ((p1, t1), (p2, t2)):
+            s1, e1, s2, e2, ks = r["case"][:5]
+            sizes_ = [(s1, e1), (s2, e2)] + ([(r["case"][5], e2)] if len(r["case"]) > 5 else [])
+            texts = [content(a, b) for a, b in sizes_]
+            paths = [os.path.join(tmp, "f%d.asm" % k) for k in range(len(texts))]
+            for pp, tt in zip(paths, texts):
                 with open(pp, "w", newline="") as f:
                     f.write(tt)
-            fo = [("f%s" % hexec.esc(pp)) if k == "f" else ("n16:%s" % hexec.esc(pp)) for k, pp in zip(ks, (p1, p2))]
-            so = [("A%s" % hexec.esc(tt)) if k == "f" else ("N16:%s" % hexec.esc(tt)) for k, tt in zip(ks, (t1, t2))]
+            fo = [("f%s" % hexec.esc(pp)) if k == "f" else ("n16:%s" % hexec.esc(pp)) for k, pp in zip(ks, paths)]
+            so = [("A%s" % hexec.esc(tt)) if k == "f" else ("N16:%s" % hexec.esc(tt)) for k, tt in zip(ks, texts)]
             res = hexec.run(["ZG\tc65536:p:cc\t" + "\t".join(fo), "ZG\tc65536:p:cc\t" + "\t".join(so)], variant="wrap",
                             dangerous=True, nproc=1, timeout=20)
             if verbose:
